@@ -1,4 +1,5 @@
 import json
+import gfapy
 from copy import deepcopy
 
 class Cloning:
@@ -25,6 +26,12 @@ class Cloning:
         data_cpy[k] = json.loads(json.dumps(v))
       elif isinstance(v, list) or isinstance(v, str):
         data_cpy[k] = deepcopy(v)
+      elif isinstance(v, gfapy.FieldArray):
+        # (multiple definitions of a header tag)
+        data_cpy[k] = gfapy.FieldArray(v.datatype, deepcopy(list(v)))
+      elif isinstance(v, gfapy.OrientedLine):
+        # (e.g. the external field of fragments)
+        data_cpy[k] = gfapy.OrientedLine(v.name, v.orient)
       else:
         data_cpy[k] = v
     cpy = self.__class__(data_cpy, vlevel = self.vlevel,
